@@ -364,6 +364,23 @@ def _rel(vals):
     return 1e-12
 
 
+def _f32_bound(db, qt, from_u, to_u, v, want):
+    """Error bound for a conversion carried out in single precision: every intermediate term
+    (amount times factor, offset, base amount, target offset) is rounded relative to ITS magnitude,
+    not to the magnitude of the final amount (affine conversions cancel leading digits)."""
+    eps = 1e-6
+    try:
+        base_u = db.GetBaseUnit(qt)
+        b0 = float(db.Convert(qt, from_u, base_u, 0.0))
+        b = float(db.Convert(qt, from_u, base_u, float(v)))
+        t0 = float(db.Convert(qt, base_u, to_u, 0.0))
+        t1 = float(db.Convert(qt, base_u, to_u, 1.0))
+        base_err = eps * (abs(b0) + abs(b - b0) + abs(b))
+        return 4.0 * (abs(t1 - t0) * base_err + eps * (abs(t0) + abs(float(want) - t0) + abs(float(want))))
+    except Exception:
+        return None
+
+
 def _representable(want, rel):
     """Single-precision containers are converted in single precision: an expected amount outside
     the float32 range (overflow to inf, underflow to 0/subnormal) cannot be compared."""
@@ -464,6 +481,11 @@ def o_changing_index(sim, op, spec, out):
             # error is relative to the amounts before the cancellation
             scale = max(abs(float(want)), abs(float(vals[j])) if j != pos else abs(float(xv)), 1e-30)
             ok_j = abs(float(got[j]) - float(want)) <= 4e-6 * max(scale, 300.0)
+            if not ok_j:
+                bound = _f32_bound(db, qt, xu if j == pos else fa.GetUnit(), want_unit, xv if j == pos else vals[j], want)
+                if bound is None or abs(float(got[j]) - float(want)) <= bound:
+                    sim.count("oracle_inapplicable:single_precision_cancellation")
+                    continue
         else:
             ok_j = M.close(got[j], want, rel)
         if not sim.check(
@@ -542,6 +564,11 @@ def o_index_as_scalar(sim, op, spec, out):
         return
     if _rel(vals) > 1e-7:
         ok_amount = abs(float(res.GetValue()) - float(want)) <= 4e-6 * max(abs(float(want)), abs(float(vals[idx])), 300.0)
+        if not ok_amount:
+            bound = _f32_bound(_db(), fa.GetQuantityType(), fa.GetUnit(), q.GetUnit(), vals[idx], want)
+            if bound is None or abs(float(res.GetValue()) - float(want)) <= bound:
+                sim.count("oracle_inapplicable:single_precision_cancellation")
+                return
     else:
         ok_amount = M.close(res.GetValue(), want, _rel(vals))
     sim.check(ok_amount, sid, {"case": "amount"}, op["i"], lambda: "got %r expected %r" % (res.GetValue(), want))
@@ -557,6 +584,12 @@ def o_curve_set(sim, op, spec, out):
     side = spec["side"]
     sid = spec["id"]
     img, dom = cv.GetImage(), cv.GetDomain()
+    if spec.get("unsized"):
+        # an Array whose values have no length (0-d ndarray, iterator) cannot be the image / domain
+        # of a curve of n points: the call must fail and the curve stay as it was
+        if sim.check(out[0] == "exc", sid, {"case": "unsized_accepted", "side": side}, op["i"], "setter with values without a length returned"):
+            sim.check(img is pre_img and dom is pre_dom, sid, {"case": "rejected_but_changed", "side": side}, op["i"], "rejected setter (values without a length) changed the curve")
+        return
     bad = len(new.GetValues()) != len((pre_dom if side == "image" else pre_img).GetValues())
     if bad:
         if not sim.check(out[0] == "exc" and isinstance(out[1], ValueError), sid, {"case": "mismatch_accepted", "side": side}, op["i"], "setter with wrong length: %s %r" % (out[0], out[1])):
@@ -569,6 +602,25 @@ def o_curve_set(sim, op, spec, out):
         else:
             ok = dom is new and img is pre_img
         sim.check(ok, sid, {"case": "accepted_wrong_side", "side": side}, op["i"], "accepted setter did not change exactly the %s" % side)
+
+
+def o_lifetime(sim, op, spec, out):
+    """The answer to a closed call does not depend on which objects died before it was made."""
+    if out[0] != "ok" or not isinstance(out[1], dict):
+        return
+    a, b = out[1]["kept"], out[1]["dropped"]
+    items = op["a"][0]["J"]
+    for n, (x, y) in enumerate(zip(a, b)):
+        sim.oracle_checks += 1
+        if x != y:
+            it = items[n]
+            sim.violation(
+                spec["id"],
+                {"case": "differs_when_earlier_objects_died", "call": it.get("m") or it.get("fn"), "kept": x[0], "dropped": y[0]},
+                op["i"],
+                "item %d of %s (%r): with all objects alive %r, with short-lived objects %r" % (n, op["k"], it, x, y),
+            )
+            return
 
 
 def o_target_unchanged(sim, op, spec, out):
@@ -590,6 +642,7 @@ ORACLES = {
     "changing_index": o_changing_index,
     "index_as_scalar": o_index_as_scalar,
     "curve_set": o_curve_set,
+    "lifetime": o_lifetime,
     "target_unchanged": o_target_unchanged,
 }
 
